@@ -3,8 +3,8 @@ INVARIANT OnlineIsBatch
 INVARIANT ConsumesOne
 INVARIANT WsInsignificant
 INVARIANT WsStartsGap
-INVARIANT IncompleteOnlyInside
 INVARIANT Emit
 PROPERTY VerdictFinal
 PROPERTY PayloadOpaque
+PROPERTY IncompleteOnlyInside
 CHECK_DEADLOCK FALSE
